@@ -929,16 +929,15 @@ theorem probe_run_pot (a : Addr) (g : Goal) (prb : Probe) (oc : Option ProbeResu
 /-- the runner over a batch: every handled probe for `(a, g)` pays one attempt -/
 theorem probeEach_pot (a : Addr) (g : Goal) (oc : Probe → Option ProbeResult) (now : Int) :
     ∀ (ps : List Probe) (s : AbsState),
-      pot a g ((probeEach oc ps).run s now).1.queue + sumOf (cP a g) ps ≤ pot a g s.queue + sumOf (wP a g) ps := by
+      pot a g ((UC.probeEach oc ps).run s now).1.queue + sumOf (cP a g) ps ≤ pot a g s.queue + sumOf (wP a g) ps := by
   intro ps
   induction ps with
-  | nil => intro s; simp [probeEach, sumOf_nil]
+  | nil => intro s; simp [UC.probeEach, sumOf_nil]
   | cons p rest ih =>
     intro s
-    have hrun : (probeEach oc (p :: rest)).run s now =
-        (probeEach oc rest).run ((UC.probe p (oc p)).run s now).1 now := by
-      show ((UC.probe p (oc p)).bind fun _ => probeEach oc rest).run s now = _
-      rw [Prog.run_bind]
+    have hrun : ((UC.probeEach oc (p :: rest)).run s now).1 =
+        ((UC.probeEach oc rest).run ((UC.probe p (oc p)).run s now).1 now).1 :=
+      Strict.probeEach_cons_state oc p rest s now
     rw [hrun, sumOf_cons, sumOf_cons]
     have h1 := probe_run_pot a g p (oc p) s now
     have h2 := ih ((UC.probe p (oc p)).run s now).1
@@ -959,11 +958,11 @@ structure Fair (a : Addr) (g : Goal) (n : Int) (order : List Probe → List Prob
 `(a, g)` plus the number of probes for `(a, g)` that were queued is at most the potential before -/
 theorem batch_pot (a : Addr) (g : Goal) (n : Int) (oc : Probe → Option ProbeResult) (order : List Probe → List Probe)
     (s : AbsState) (now : Int) (hinj : IdInj s.queue) (hf : Fair a g n order now s) :
-    pot a g ((proberBatch n oc order).run s now).1.queue + cnt a g s.queue ≤ pot a g s.queue := by
+    pot a g ((UC.proberRunWith n oc order).run s now).1.queue + cnt a g s.queue ≤ pot a g s.queue := by
   obtain ⟨hq, hgot, _, _⟩ := popMany_fit s now n hinj hf.npos hf.fits
-  have hrun : (proberBatch n oc order).run s now =
-      (probeEach oc (order (s.popMany now n).2.1)).run (s.popMany now n).1 now := by
-    simp only [proberBatch, Prog.run_call, Call.exec]
+  have hrun : ((UC.proberRunWith n oc order).run s now).1 =
+      ((UC.probeEach oc (order (s.popMany now n).2.1)).run (s.popMany now n).1 now).1 :=
+    Strict.proberRunWith_state n oc order s now
   rw [hrun]
   have h1 := probeEach_pot a g oc now (order (s.popMany now n).2.1) (s.popMany now n).1
   have e1 : sumOf (cP a g) (order (s.popMany now n).2.1) =
@@ -1040,16 +1039,15 @@ theorem probe_run_qok (prb : Probe) (oc : Option ProbeResult) (s : AbsState) (no
       · rw [List.mem_singleton.1 hx]; exact hp
 
 theorem probeEach_qok (oc : Probe → Option ProbeResult) (now : Int) :
-    ∀ (ps : List Probe) (s : AbsState), QOk s → (∀ p ∈ ps, p.addr.PortOk) → QOk ((probeEach oc ps).run s now).1 := by
+    ∀ (ps : List Probe) (s : AbsState), QOk s → (∀ p ∈ ps, p.addr.PortOk) → QOk ((UC.probeEach oc ps).run s now).1 := by
   intro ps
   induction ps with
   | nil => intro s h _; exact h
   | cons p rest ih =>
     intro s h hp
-    have hrun : (probeEach oc (p :: rest)).run s now =
-        (probeEach oc rest).run ((UC.probe p (oc p)).run s now).1 now := by
-      show ((UC.probe p (oc p)).bind fun _ => probeEach oc rest).run s now = _
-      rw [Prog.run_bind]
+    have hrun : ((UC.probeEach oc (p :: rest)).run s now).1 =
+        ((UC.probeEach oc rest).run ((UC.probe p (oc p)).run s now).1 now).1 :=
+      Strict.probeEach_cons_state oc p rest s now
     rw [hrun]
     exact ih _ (probe_run_qok p (oc p) s now h (hp p List.mem_cons_self)) (fun q hq => hp q (List.mem_cons_of_mem _ hq))
 
@@ -1058,11 +1056,11 @@ theorem popMany_nextId (s : AbsState) (now : Int) (n : Int) : (s.popMany now n).
 
 theorem batch_qok (n : Int) (oc : Probe → Option ProbeResult) (order : List Probe → List Probe)
     (horder : ∀ ps, (order ps).Perm ps) (s : AbsState) (now : Int) (h : QOk s) :
-    QOk ((proberBatch n oc order).run s now).1 := by
+    QOk ((UC.proberRunWith n oc order).run s now).1 := by
   have hcov := popMany_covers s now n h.inj
-  have hrun : (proberBatch n oc order).run s now =
-      (probeEach oc (order (s.popMany now n).2.1)).run (s.popMany now n).1 now := by
-    simp only [proberBatch, Prog.run_call, Call.exec]
+  have hrun : ((UC.proberRunWith n oc order).run s now).1 =
+      ((UC.probeEach oc (order (s.popMany now n).2.1)).run (s.popMany now n).1 now).1 :=
+    Strict.proberRunWith_state n oc order s now
   rw [hrun]
   refine probeEach_qok oc now _ _ ⟨?_, ?_, ?_⟩ ?_
   · intro x hx y hy hxy; exact h.inj x (hcov.2.1 x hx) y (hcov.2.1 y hy) hxy
@@ -1081,7 +1079,7 @@ structure Batch where
   order : List Probe → List Probe
   now : Int
 
-def Batch.run (b : Batch) (s : AbsState) : AbsState := ((proberBatch b.n b.oc b.order).run s b.now).1
+def Batch.run (b : Batch) (s : AbsState) : AbsState := ((UC.proberRunWith b.n b.oc b.order).run s b.now).1
 
 /-- the store after a sequence of fault-free prober batches, nothing else running in between -/
 def runBatches : List Batch → AbsState → AbsState
